@@ -250,6 +250,9 @@ var c03 = gen.Register(&gen.Check[caseC03]{
 		for b := 0; b < 256; b++ { // all one-byte strings, exhaustively
 			out = append(out, caseC03{Data: hex.EncodeToString([]byte{byte(b)}), Decoder: "decode", Prior: prior, Kind: "one-byte"})
 		}
+		for _, v := range append(gen.WordProducts(ref.P, 64, gen.Neighbours5), gen.WordProducts(ref.P, 32, gen.Neighbours3)...) {
+			out = append(out, caseC03{Data: hex.EncodeToString(comp(byte(2+v.Bit(0)), v)), Decoder: "decode", Prior: prior, Kind: "x-range"})
+		}
 		g := ref.G()
 		mk := func(d []byte, dec, kind string) {
 			c := caseC03{Data: hex.EncodeToString(d), Decoder: dec, Prior: prior, Kind: kind}
